@@ -214,8 +214,25 @@ func c07Gen(r *Rng, n int) []string {
 			cfg.Keys = keyAlpha
 		}
 		m := r.RootMap(&cfg)
+		if r.P(8) {
+			// several lists that together cross the initial result capacity (32 / SetArraySize)
+			k := 2 + r.Intn(6)
+			var items []interface{}
+			for i := 0; i < k; i++ {
+				n := 3 + r.Intn(14)
+				var l []interface{}
+				for x := 0; x < n; x++ {
+					l = append(l, fmt.Sprintf("v%d_%d", i, x))
+				}
+				items = append(items, map[string]interface{}{"b": l, "c": map[string]interface{}{"b": l[:1+r.Intn(n)]}})
+			}
+			m = map[string]interface{}{"a": items, "k": "x"}
+		}
 		for j := 0; j < 4; j++ {
 			path := r.DerivedPath(m, true, 5)
+			if _, wide := m["a"].([]interface{}); wide && len(m) == 2 && r.P(70) {
+				path = r.Pick([]string{"a.b", "a.c.b", "a.*.b", "*.b", "a.*", "a.b[1]", "a.c.b[0]"})
+			}
 			var subs []string
 			sep := ":"
 			if r.P(10) {
